@@ -42,20 +42,30 @@ def enter_scratch():
         import shutil
         import tempfile
 
+        global _SCRATCH_OWNER
         _SCRATCH = tempfile.mkdtemp(prefix="xoverif_", dir=os.environ.get("VERIF_SCRATCH", "/tmp"))
-        pid = os.getpid()
-
-        def _cleanup(d=_SCRATCH):
-            if os.getpid() == pid:
-                try:
-                    os.chdir("/")
-                except OSError:
-                    pass
-                shutil.rmtree(d, ignore_errors=True)
-
-        atexit.register(_cleanup)
+        _SCRATCH_OWNER = os.getpid()
+        atexit.register(leave_scratch)
         os.chdir(_SCRATCH)
     return _SCRATCH
+
+
+_SCRATCH_OWNER = None
+
+
+def leave_scratch():
+    """Remove the scratch directory if this process created it (also called by pool children
+    before os._exit, which skips atexit: an engine first used inside a child owns its directory)."""
+    global _SCRATCH
+    if _SCRATCH is not None and os.getpid() == _SCRATCH_OWNER:
+        import shutil
+
+        try:
+            os.chdir("/")
+        except OSError:
+            pass
+        shutil.rmtree(_SCRATCH, ignore_errors=True)
+        _SCRATCH = None
 
 
 def run_rng(seed, prop, engine, index):
@@ -247,7 +257,10 @@ def pool_run(fn, index_iter, workers, slice_size, deadline, per_run_timeout=60, 
                 traceback.print_exc()
                 code = 3
             finally:
-                os._exit(code)
+                try:
+                    leave_scratch()
+                finally:
+                    os._exit(code)
         os.close(w)
         os.set_blocking(r, False)
         sel.register(r, selectors.EVENT_READ)
